@@ -284,10 +284,13 @@ func (ek *EAPOLKey) SerializeTo(b gopacket.SerializeBuffer, opts gopacket.Serial
 	binary.BigEndian.PutUint16(buf[3:5], ek.KeyLength)
 	binary.BigEndian.PutUint64(buf[5:13], ek.ReplayCounter)
 
+	copy(buf[13:45], lotsOfZeros[:]) // a short Nonce is zero padded, not left as the buffer was
 	copy(buf[13:45], ek.Nonce)
+	copy(buf[45:61], lotsOfZeros[:]) // ditto IV
 	copy(buf[45:61], ek.IV)
 	binary.BigEndian.PutUint64(buf[61:69], ek.RSC)
 	binary.BigEndian.PutUint64(buf[69:77], ek.ID)
+	copy(buf[77:93], lotsOfZeros[:]) // ditto MIC
 	copy(buf[77:93], ek.MIC)
 
 	binary.BigEndian.PutUint16(buf[93:95], ek.KeyDataLength)
